@@ -212,6 +212,14 @@ func vhDefFoldPunct() Rules {
 	return Rules{"Root": {{"At", `(?i)@a`, nil}, {"Us", `(?i)a_`, nil}, {"Br", `(?i)[b]-`, nil}, {"Sp", `(?i)c c`, nil}, {"Other", `(?s).`, nil}}}
 }
 
+// a state without rules (entering it ends lexing unless the input ends there)
+func vhDefEmptyState() Rules {
+	return Rules{
+		"Root":  {{"A", `a`, Push("Empty")}, {"B", `b`, nil}},
+		"Empty": {},
+	}
+}
+
 func vhDefBackref() Rules { // heredoc-style back-reference
 	return Rules{
 		"Root": {{"Start", `<([a-c])`, Push("H")}, {"Ident", `[a-c]`, nil}},
